@@ -1772,4 +1772,74 @@ theorem which_pres {br : BR} {op : Op} {w : World} {id : Nat} {f : Dep → Dep} 
   · exact pres_release _
   · exact pres_setReplicas t
 
+/-! ## runs -/
+
+theorem call_nodup (br : BR) (op : Op) (c : Cfg) (w : World) (exp : Exp) (hnd : (names w).Nodup) :
+    (names (call br op c w exp).w).Nodup := by
+  obtain ⟨id, f, ids, hf, _, _, hworld⟩ := call_shape br op c w exp
+  rcases hworld with h | ⟨_, _, st, cd, _, hnew, _, h, _⟩
+  · rw [h]
+    unfold effW
+    exact nodup_dropAll _ (by rw [names_modify _ _ _ hf]; exact hnd)
+  · rw [h]
+    obtain ⟨tp, _, hcd⟩ := newCanary_some hnew
+    exact nodup_add_fresh (by rw [names_modify _ _ _ hf]; exact hnd) (by rw [hcd])
+
+theorem find_map_aux (l : List Dep) (g : Dep → Dep) (n : Nat) (hg : ∀ d, (g d).name = d.name) :
+    (l.map g).find? (fun x => x.name == n) = (l.find? (fun x => x.name == n)).map g := by
+  induction l with
+  | nil => rfl
+  | cons x l ih =>
+    by_cases hn : x.name = n
+    · subst hn
+      simp [hg]
+    · simp only [List.map_cons, List.find?_cons, hg]
+      have : (x.name == n) = false := by simpa using hn
+      simp only [this]
+      exact ih
+
+/-- an environment event that rewrites every object by `g` (names, owners, deletion marks, templates kept) -/
+theorem matchCount_map (br : BR) (w : World) (g : Dep → Dep) (hg : ∀ d, (g d).name = d.name)
+    (hp : Pres g) : matchCount br { deps := w.deps.map g } = matchCount br w := by
+  unfold matchCount
+  have hfind : ({ deps := w.deps.map g } : World).find br.key = (w.find br.key).map g :=
+    find_map_aux w.deps g br.key hg
+  rw [List.filter_map, List.length_map]
+  congr 1
+  apply List.filter_congr
+  intro d _
+  simp only [Function.comp]
+  unfold matching
+  rw [hfind]
+  cases hst : w.find br.key with
+  | none => simp [owned, (hp d).1, (hp d).2.1]
+  | some st => simp [owned, (hp d).1, (hp d).2.1, (hp d).2.2, (hp st).2.2]
+
+theorem pres_observed : Pres observed := fun d => by
+  unfold observed; exact ⟨rfl, rfl, rfl⟩
+
+theorem applyEvent_nodup (br : BR) (ev : Event) (w : World) (exp : Exp) (hnd : (names w).Nodup) :
+    (names (applyEvent br ev w exp).1).Nodup := by
+  cases ev
+  · exact hnd
+  · exact hnd
+  · show (names { deps := w.deps.map observed }).Nodup
+    have : names { deps := w.deps.map observed } = names w := by
+      unfold names
+      simp only [List.map_map]
+      apply List.map_congr_left
+      intro d _
+      rfl
+    rw [this]; exact hnd
+  · show (names (w.modify br.key _)).Nodup
+    rw [names_modify _ _ _ (by intro d; rfl)]; exact hnd
+
+theorem applyEvent_matchCount (br : BR) (ev : Event) (w : World) (exp : Exp) (hev : ev ≠ .newTemplate) :
+    matchCount br (applyEvent br ev w exp).1 = matchCount br w := by
+  cases ev
+  · rfl
+  · rfl
+  · exact matchCount_map br w observed (fun _ => rfl) pres_observed
+  · exact absurd rfl hev
+
 end RV.CtlCanary
